@@ -29,6 +29,7 @@ type GenOpts struct {
 	LowEntropy bool // allow low-entropy contents
 	NoEdits    bool // C08-style: only renames/dups/localized edits
 	TinyBias   bool // favour sizes 0..16 (C07)
+	HighEntropyOnly bool // every content is a high-entropy stream (C08)
 }
 
 var dirPool = []string{"", "", "a", "a/b", "c", "a/b/d", "e"}
@@ -87,6 +88,9 @@ func poolBlock(poolSeed uint64, id int) []byte {
 func genContent(rt *rapid.T, o GenOpts, size int, poolSeed uint64, label string) []byte {
 	if size == 0 {
 		return []byte{}
+	}
+	if o.HighEntropyOnly {
+		return Bytes(rapid.Uint64().Draw(rt, label+".cseed"), size)
 	}
 	kind := rapid.IntRange(0, 9).Draw(rt, label+".ckind")
 	switch {
@@ -523,7 +527,7 @@ func GenPair(rt *rapid.T, o GenOpts) *Pair {
 		}
 	}
 
-	if o.DirFile && rapid.IntRange(0, 3).Draw(rt, "dirfile") == 0 {
+	if o.DirFile && rapid.IntRange(0, 24).Draw(rt, "dirfile") == 0 {
 		// dir <-> file in place
 		if rapid.Bool().Draw(rt, "dir2file") {
 			var dirs []string
